@@ -19,7 +19,9 @@ def PairOk (s : Chain × Chain) (m : Mem) : Prop :=
 def StepRefines (dbl : Bool) (P : Params) (s : Chain × Chain) (op : Op) (m : Mem)
     (r : Out × (Chain × Chain) × Mem) : Prop :=
   PairOk r.2.1 r.2.2 ∧
-  (r.2.1.1.triple = r.2.1.2.triple ↔ s.1.triple = s.2.triple) ∧
+  ((r.2.1.1.triple = r.2.1.2.triple ↔ s.1.triple = s.2.triple) ∧
+   (op ≠ .swapRoles → r.2.1.1.triple = s.1.triple ∧ r.2.1.2.triple = s.2.triple) ∧
+   ((r.2.1.1.triple = s.1.triple ∧ r.2.1.2.triple = s.2.triple) ∨ (r.2.1.1.triple = s.2.triple ∧ r.2.1.2.triple = s.1.triple))) ∧
   (r.1.st = some .errAlloc → r.1 = { st := some .errAlloc } ∧ r.2.1 = s ∧ ∀ t, r.2.2.liveT t = m.liveT t) ∧
   (r.1.st ≠ some .errAlloc → (r.1, (r.2.1.1.abs, r.2.1.2.abs)) = LSeq.step dbl P (s.1.abs, s.2.abs) op) ∧
   r.2.2.fault = m.fault ∧ Mem.Frame s.1.triple m r.2.2 ∧
@@ -41,7 +43,8 @@ theorem stepRefines_of_stepOk {dbl : Bool} {P : Params} {s : Chain × Chain} {op
   · rw [hst]; exact ofList_inv _
   · rw [hst]; exact ofList_inv _
   · intro t; rw [hown]; have := ok.ledger t; have := h.2.2 t; simp only [owned] at *; omega
-  · rw [e3, e4]; rcases ok.triples with ⟨a, b⟩ | ⟨a, b⟩ <;> rw [a, b]; exact eq_comm
+  · refine ⟨?_, fun hsw => by rw [e3, e4]; exact ok.keep hsw, by rw [e3, e4]; exact ok.triples⟩
+    rw [e3, e4]; rcases ok.triples with ⟨a, b⟩ | ⟨a, b⟩ <;> rw [a, b]; exact eq_comm
   · intro he
     obtain ⟨ha, hb, ht1, ht2, ho⟩ := ok.atomic he
     refine ⟨ho, ?_, ?_⟩
@@ -107,7 +110,7 @@ theorem run_skipping (hf : ∀ s op m, PairOk s m → SpliceOk s.1.triple s.2.tr
   | [], s, m, h, _ => ⟨rfl, rfl, h, rfl⟩
   | op :: ops, s, m, h, hc => by
     obtain ⟨h1, ht, h2, h3, h4, _, _, _, _⟩ := hf s op m h hc.spliceOk
-    have ih := run_skipping hf ops (f s op m).2.1 (f s op m).2.2 h1 (hc.tail ht)
+    have ih := run_skipping hf ops (f s op m).2.1 (f s op m).2.2 h1 (hc.tail ht.1)
     simp only [runWith, List.map_cons, LSeq.runSkipping]
     by_cases he : (f s op m).1.st = some .errAlloc
     · obtain ⟨e1, e2, _⟩ := h2 he
@@ -134,7 +137,7 @@ theorem run_exact (hf : ∀ s op m, PairOk s m → SpliceOk s.1.triple s.2.tripl
   | op :: ops, s, m, h, hc, hs => by
     obtain ⟨h1, ht, _, h3, h4, _, _, h7, _⟩ := hf s op m h hc.spliceOk
     obtain ⟨hs', hne⟩ := h7 hs
-    have ih := run_exact hf ops (f s op m).2.1 (f s op m).2.2 h1 (hc.tail ht) hs'
+    have ih := run_exact hf ops (f s op m).2.1 (f s op m).2.2 h1 (hc.tail ht.1) hs'
     have e := h3 hne
     have e1 : (LSeq.step dbl P (s.1.abs, s.2.abs) op).1 = (f s op m).1 := by rw [← e]
     have e2 : (LSeq.step dbl P (s.1.abs, s.2.abs) op).2 = ((f s op m).2.1.1.abs, (f s op m).2.1.2.abs) := by rw [← e]
@@ -148,11 +151,57 @@ theorem run_ledger (hf : ∀ s op m, PairOk s m → SpliceOk s.1.triple s.2.trip
   | [], _, _, _, _ => fun _ => rfl
   | op :: ops, s, m, h, hc => by
     obtain ⟨h1, ht, _, _, _, _, h6, _, _⟩ := hf s op m h hc.spliceOk
-    have ih := run_ledger hf ops (f s op m).2.1 (f s op m).2.2 h1 (hc.tail ht)
+    have ih := run_ledger hf ops (f s op m).2.1 (f s op m).2.2 h1 (hc.tail ht.1)
     intro t
     have a := ih t
     have b := h6 t
     simp only [runWith]
     omega
+
+/-- over a whole history the two lists keep their allocator triples, up to the exchange of roles -/
+theorem run_triples (hf : ∀ s op m, PairOk s m → SpliceOk s.1.triple s.2.triple op → StepRefines dbl P s op m (f s op m)) :
+    ∀ (ops : List Op) (s : Chain × Chain) (m : Mem), PairOk s m → Compat s ops →
+      ((runWith f s ops m).2.1.1.triple = s.1.triple ∧ (runWith f s ops m).2.1.2.triple = s.2.triple) ∨
+      ((runWith f s ops m).2.1.1.triple = s.2.triple ∧ (runWith f s ops m).2.1.2.triple = s.1.triple)
+  | [], _, _, _, _ => Or.inl ⟨rfl, rfl⟩
+  | op :: ops, s, m, h, hc => by
+    obtain ⟨h1, ht, _⟩ := hf s op m h hc.spliceOk
+    have ih := run_triples hf ops (f s op m).2.1 (f s op m).2.2 h1 (hc.tail ht.1)
+    simp only [runWith]
+    rcases ht.2.2 with ⟨a, b⟩ | ⟨a, b⟩ <;> rcases ih with ⟨c, d⟩ | ⟨c, d⟩
+    · exact Or.inl ⟨c.trans a, d.trans b⟩
+    · exact Or.inr ⟨c.trans b, d.trans a⟩
+    · exact Or.inr ⟨c.trans a, d.trans b⟩
+    · exact Or.inl ⟨c.trans b, d.trans a⟩
+
+/-- a history between two lists on the same triple `t` never touches the other allocator -/
+theorem run_frame_same (hf : ∀ s op m, PairOk s m → SpliceOk s.1.triple s.2.triple op → StepRefines dbl P s op m (f s op m)) (t : Triple) :
+    ∀ (ops : List Op) (s : Chain × Chain) (m : Mem), PairOk s m → s.1.triple = t → s.2.triple = t →
+      Mem.Frame t m (runWith f s ops m).2.2
+  | [], _, m, _, _, _ => Mem.Frame.rfl' t m
+  | op :: ops, s, m, h, h1, h2 => by
+    obtain ⟨p1, ht, _, _, _, hfr, _⟩ := hf s op m h (fun _ => h1.trans h2.symm)
+    have h1' : (f s op m).2.1.1.triple = t := by rcases ht.2.2 with ⟨a, _⟩ | ⟨a, _⟩ <;> rw [a] <;> assumption
+    have h2' : (f s op m).2.1.2.triple = t := by rcases ht.2.2 with ⟨_, b⟩ | ⟨_, b⟩ <;> rw [b] <;> assumption
+    have ih := run_frame_same hf t ops (f s op m).2.1 (f s op m).2.2 p1 h1' h2'
+    simp only [runWith]
+    rw [h1] at hfr
+    exact hfr.trans ih
+
+/-- a history without exchange of roles charges and discharges only the **destination's** triple:
+the source list's allocator is never touched (`add_all`/`add_all_at` build their copies through the
+destination — repair L5) -/
+theorem run_frame_dest (hf : ∀ s op m, PairOk s m → SpliceOk s.1.triple s.2.triple op → StepRefines dbl P s op m (f s op m)) :
+    ∀ (ops : List Op) (s : Chain × Chain) (m : Mem), PairOk s m → Compat s ops → (∀ op, op ∈ ops → op ≠ .swapRoles) →
+      Mem.Frame s.1.triple m (runWith f s ops m).2.2 ∧ (runWith f s ops m).2.1.1.triple = s.1.triple ∧
+      (runWith f s ops m).2.1.2.triple = s.2.triple
+  | [], s, m, _, _, _ => ⟨Mem.Frame.rfl' _ m, rfl, rfl⟩
+  | op :: ops, s, m, h, hc, hsw => by
+    obtain ⟨p1, ht, _, _, _, hfr, _⟩ := hf s op m h hc.spliceOk
+    obtain ⟨k1, k2⟩ := ht.2.1 (hsw op List.mem_cons_self)
+    have ih := run_frame_dest hf ops (f s op m).2.1 (f s op m).2.2 p1 (hc.tail ht.1) (fun o ho => hsw o (List.mem_cons_of_mem _ ho))
+    simp only [runWith]
+    rw [k1] at ih
+    exact ⟨hfr.trans ih.1, ih.2.1, ih.2.2.trans k2⟩
 
 end CC.ListHistory
